@@ -520,6 +520,9 @@ def _typeref_faults(g, e, ek, local, a, b, current, is_attr, max_requirers):
         own = chain[0].attr("name")
         if own is not None and unescape(own.value) != current:
             mk("typeRef-self", unescape(own.value))
+            # the same name as pretty-printed XML would carry it (the lookups may or may not trim)
+            mk("typeRef-self-padded", " " + unescape(own.value) + " ")
+            mk("typeRef-self-padded", "\n      " + unescape(own.value) + "\n    ")
         for anc in chain[1:]:
             na = anc.attr("name")
             if na is not None and unescape(na.value) != current:
@@ -529,6 +532,7 @@ def _typeref_faults(g, e, ek, local, a, b, current, is_attr, max_requirers):
             reqs = [r for r in g.item_requirers(unescape(top.value)) if r != current]
             for r in _spread(reqs, max_requirers):
                 mk("typeRef-requirer", r, "cycle through %s" % r)
+                mk("typeRef-requirer-padded", " " + r + " ", "cycle through %s" % r)
     else:
         # a variable / clause / expression typed by an item definition: point it at every kind of definition
         names = sorted(g.items)
